@@ -93,10 +93,27 @@ def rule_strip(ctx):
     r.require(apps, "the append site of the CT_PREPROC_BODY reader was not found")
     for n in apps:
         cs = _conds(pn2, n)
-        okb = any(pol is False and "&&" in c and "last == '\\\\'" in c and "ch == ' '" in c and "||" not in c for c, pol in cs)
+        # the append is reached only when NOT (last == '\\' && <blank test> [&& only_blanks_to_end_of_line(ctx)]):
+        # either every blank after a backslash is dropped, or exactly those that run to the end of the line
+        okb = False
+        BS = chr(92)
+        for c, pol in cs:
+            cc = c.replace(BS, "")                    # compare without the escape characters of the C literals
+            if pol is False and "last == ''" in cc and "ch == ' '" in cc:
+                parts = [x.strip() for x in cc.split(" && ")]
+                extra = [x for x in parts if x not in ("last == ''", "ch == ' '", "ch == ' ' || ch == 't'", "(ch == ' ' || ch == 't')", "only_blanks_to_end_of_line(ctx)")]
+                if not extra:
+                    okb = True
         r.check(okb, "parse_next/preproc-body/no-blank-after-backslash", db.loc(pn2, n),
-                "the reader of a directive body appends a character without excluding a blank that follows a backslash; together with the "
-                "strip loop's keep-one-blank-after-backslash exemption a code line can end in a blank")
+                "the reader of a directive body appends a character without excluding a blank that follows a backslash and runs to the end of the line; "
+                "together with the strip loop's keep-one-blank-after-backslash exemption a code line can end in a blank")
+    hs = db.fns("only_blanks_to_end_of_line")
+    if hs:
+        # the helper says `to the end of the line` only after it has skipped blanks and tabs and then sees LF, CR or the end of the input
+        h = hs[0]
+        txt = " ".join(expr_str(h, x["i"]) for x in h.all_nodes() if x["k"] in ("bin", "ret")).replace(chr(92), "")
+        r.check("== ' '" in txt and "== 't'" in txt and "== 'n'" in txt and "== 'r'" in txt and "== 0" in txt and len([x for x in h.all_nodes() if x["k"] == "ret"]) == 1,
+                "only_blanks_to_end_of_line/shape", db.loc(h, h.l0), "only_blanks_to_end_of_line() no longer skips ' ' and '\\t' and then compares with LF, CR and 0")
     r.floor(6)
 
 
